@@ -389,10 +389,10 @@ Definition after_handle (th : thread) : pc :=
   | None => PWgDone
   end.
 
-(* fx = false: the code as found: handle takes and releases syncMutex, the latest-sync update
-               and the event follow the release;
-   fx = true : with pending/C08-fix-sync-lock-window: the callers of handle hold syncMutex
-               until the latest-sync update and the event have been made. *)
+(* fx = false: the code before commit 37072b2: handle takes and releases syncMutex, the
+               latest-sync update and the event follow the release;
+   fx = true : the code now: the callers of handle hold syncMutex until the latest-sync
+               update and the event have been made. *)
 Definition step_thread (fx : bool) (s : st) (t : nat) (th : thread) (choice : nat) : option st :=
   let k := t_kind th in
   let p := k_pub k in
@@ -594,7 +594,7 @@ Fixpoint projop (keep : string -> bool) (a : sop) {struct a} : list sop :=
 Definition proj (keep : string -> bool) (x : skel) : skel := flat_map (projop keep) x.
 
 Definition keep_calls (n : string) : bool :=
-  mem n ["handle"; "sendSyncFinishedEvent"; "asyncSyncAdChain"; "doClose"; "syncEntries"].
+  mem n ["handle"; "sendSyncFinishedEvent"; "asyncSyncFailed"; "asyncSyncAdChain"; "doClose"; "syncEntries"].
 
 Definition same_proj (x y : skel) : bool := skel_eqb (proj keep_calls x) y.
 
@@ -642,15 +642,6 @@ Definition expected_doClose_v0 : skel :=
    SReturn].
 
 (* --- compared after projection --- *)
-Definition expected_SyncAdChain_v0 : skel :=
-  [SLock "s.expSyncMutex";
-   SIf "" [SUnlock "s.expSyncMutex"] [];
-   SWgAdd "s.expSyncWG";
-   SUnlock "s.expSyncMutex";
-   SDefer [SWgDone "s.expSyncWG"];
-   SCall "handle";
-   SIf "" [SCall "sendSyncFinishedEvent"] []].
-
 Definition expected_SyncAdChain : skel :=
   [SLock "s.expSyncMutex";
    SIf "" [SUnlock "s.expSyncMutex"] [];
@@ -662,25 +653,17 @@ Definition expected_SyncAdChain : skel :=
    SCall "handle";
    SIf "" [SCall "sendSyncFinishedEvent"] []].
 
-Definition expected_asyncSyncAdChain_v0 : skel :=
-  [SAtomic "Swap" "h.pendingMsg";
-   SCall "handle";
-   SIf "" [SSend "h.subscriber.inEvents"] [];
-   SCall "sendSyncFinishedEvent"].
-
 Definition expected_asyncSyncAdChain : skel :=
   [SAtomic "Swap" "h.pendingMsg";
    SLock "h.syncMutex";
    SDeferUnlock "h.syncMutex";
+   SIf "" [SCall "asyncSyncFailed"] [];
    SCall "handle";
-   SIf "" [SSend "h.subscriber.inEvents"] [];
+   SIf "" [SCall "asyncSyncFailed"] [];
    SCall "sendSyncFinishedEvent"].
 
-Definition expected_handle_v0 : skel :=
-  [SLock "h.syncMutex";
-   SLock "h.subscriber.scopedBlockHookMutex"; SUnlock "h.subscriber.scopedBlockHookMutex";
-   SDefer [SLock "h.subscriber.scopedBlockHookMutex"; SUnlock "h.subscriber.scopedBlockHookMutex";
-           SUnlock "h.syncMutex"]].
+(* the error notification of a failed announce-triggered sync (PSendErr) *)
+Definition expected_asyncSyncFailed : skel := [SSend "h.subscriber.inEvents"].
 
 Definition expected_handle : skel :=
   [SLock "h.subscriber.scopedBlockHookMutex"; SUnlock "h.subscriber.scopedBlockHookMutex";
@@ -711,18 +694,12 @@ Definition tie_common (gen : list (string * skel)) : bool :=
    full_of gen "Subscriber.OnSyncFinished" expected_OnSyncFinished) &&
   proj_of gen "Subscriber.watch" expected_watch.
 
-(* the code as found (stepf false) *)
-Definition tie_ok_v0 (gen : list (string * skel)) : bool :=
-  tie_common gen &&
-  proj_of gen "Subscriber.SyncAdChain" expected_SyncAdChain_v0 &&
-  proj_of gen "handler.asyncSyncAdChain" expected_asyncSyncAdChain_v0 &&
-  proj_of gen "handler.handle" expected_handle_v0.
-
 (* with the event sent inside the per-publisher sync lock (stepf true) *)
 Definition tie_ok (gen : list (string * skel)) : bool :=
   tie_common gen &&
   proj_of gen "Subscriber.SyncAdChain" expected_SyncAdChain &&
   proj_of gen "handler.asyncSyncAdChain" expected_asyncSyncAdChain &&
+  full_of gen "handler.asyncSyncFailed" expected_asyncSyncFailed &&
   proj_of gen "handler.handle" expected_handle.
 
 (* keep only the lock operations on mutex m *)
@@ -769,4 +746,5 @@ Definition gate_ok (gen : list (string * skel)) : bool :=
 Definition locks_balanced (gen : list (string * skel)) : bool :=
   forallb (fun n => balanced 400 (lookup_or_nil n gen))
           ["Subscriber.SyncAdChain"; "Subscriber.syncEntries"; "Subscriber.doClose";
-           "handler.asyncSyncAdChain"; "handler.sendSyncFinishedEvent"; "Subscriber.OnSyncFinished"].
+           "handler.asyncSyncAdChain"; "handler.asyncSyncFailed"; "handler.sendSyncFinishedEvent";
+           "Subscriber.OnSyncFinished"].
